@@ -8,6 +8,7 @@ Ops that came with two repairs (x509 pad() writing into the caller's buffer; pkc
 -/
 import Gmsm.Model.SliceMem
 import Gmsm.Model.PKCS8
+import Driver.C17Fix
 namespace Driver
 open Gmsm
 
@@ -65,6 +66,6 @@ def p7fixDispatch (toks : List String) : Option String :=
   match toks with
   | "p7padmem" :: rest => some (p7padmemOp rest)
   | "p12k" :: rest => some (p12kOp rest)
-  | _ => none
+  | _ => c17fixDispatch toks   -- p12ca, p7envkt, p7seg, p7sdbad (Driver/C17Fix.lean)
 
 end Driver
